@@ -13,6 +13,24 @@ def finish (r : TreeNode × TreeNode × List SiblingProof × Bool) : TreeNode ×
 
 def dirOf (b : Bool) : Direction := if b then .right else .left
 
+/-! ### the child read of the proof generators (`getChildForProof`, fix D13) against `getChild` -/
+
+theorem getChildForProof_of_getChild_some {s : NodeStore} {n : TreeNode} {d : Direction} {e : Nat} {ch : TreeNode}
+    (h : s.getChild n d e = .ok (some ch)) : s.getChildForProof n d e = .ok (some ch) := by
+  unfold NodeStore.getChildForProof
+  rw [h]
+
+theorem getChildForProof_of_label_none {s : NodeStore} {n : TreeNode} {d : Direction} {e : Nat}
+    (h : n.childLabel d = none) : s.getChildForProof n d e = .ok none := by
+  unfold NodeStore.getChildForProof NodeStore.getChild
+  rw [h]
+  rfl
+
+theorem getChildForProof_error {s : NodeStore} {n : TreeNode} {d : Direction} {e : Nat} {x : Err}
+    (h : s.getChild n d e = .error x) : s.getChildForProof n d e = .error x := by
+  unfold NodeStore.getChildForProof
+  rw [h]
+
 theorem lcpWalk_equal (c : Cfg) (s : NodeStore) (label : NodeLabel) (ep f : Nat) (cur prev : TreeNode)
     (sps : List SiblingProof) (h : label = cur.label) :
     lcpWalk c s label ep (f + 1) cur prev sps = .ok (cur, prev, sps, true) := by
@@ -26,7 +44,7 @@ theorem lcpWalk_invalid (c : Cfg) (s : NodeStore) (label : NodeLabel) (ep f : Na
 theorem lcpWalk_none (c : Cfg) (s : NodeStore) (label : NodeLabel) (ep f : Nat) (cur prev : TreeNode)
     (sps : List SiblingProof) (b : Bool) (hne : label ≠ cur.label)
     (h : cur.label.prefixOrdering label = (if b then .withOne else .withZero))
-    (hg : s.getChild cur (dirOf b) ep = .ok none) :
+    (hg : s.getChildForProof cur (dirOf b) ep = .ok none) :
     lcpWalk c s label ep (f + 1) cur prev sps = .ok (cur, prev, sps, false) := by
   cases b <;> simp [lcpWalk, h, hne, dirOf] at hg ⊢ <;> simp [hg]
 
@@ -37,6 +55,7 @@ theorem lcpWalk_step (c : Cfg) (s : NodeStore) (label : NodeLabel) (ep f : Nat) 
     (hs : childElement c s cur (dirOf b).other ep = .ok sib) :
     lcpWalk c s label ep (f + 1) cur prev sps =
       lcpWalk c s label ep f child cur (sps ++ [⟨cur.label, sib, dirOf b⟩]) := by
+  replace hg := getChildForProof_of_getChild_some hg
   cases b <;> simp [lcpWalk, h, hne, dirOf] at hg hs ⊢ <;> simp [hg, hs]
 
 theorem ordering_of_bit (q x : BitStr) (b : Bool) (hx : x.length ≤ 256) (h : (q ++ [b]) <+: x) :
@@ -78,8 +97,20 @@ theorem childElement_rep (c : Cfg) (s : NodeStore) (o : Option CTree) (ep : Nat)
     (h : n.childLabel d = olbl o) :
     childElement c s n d ep = .ok (CRoot.element c o) := by
   obtain ⟨on, h1, h2, h3⟩ := getChild_rep c .directory s o ep hrep n d h
+  have h1' : s.getChildForProof n d ep = .ok on := by
+    cases o with
+    | none =>
+      rw [getChildForProof_of_label_none h]
+      unfold NodeStore.getChild at h1
+      rw [h] at h1
+      exact h1
+    | some t =>
+      obtain ⟨nt, hg, _⟩ := getChild_some c .directory s t ep (hrep t rfl).1 (hrep t rfl).2 n d h
+      rw [hg] at h1
+      rw [getChildForProof_of_getChild_some hg]
+      exact h1
   unfold NodeStore.childElement
-  rw [h1]
+  rw [h1']
   simp only [decide_true] at h2
   simp only [h2, h3, CRoot.element]
   rfl
@@ -268,9 +299,7 @@ theorem walk_root (c : Cfg) (s : NodeStore) (ep : Nat) (t : CRoot) (x : BitStr) 
     | none =>
       refine ⟨_, n, lcpWalk_none c s _ ep 299 n n [] b hne
         (by rw [hlbl]; exact ordering_of_bit [] _ b hx hqb) ?_, ?_, ?_⟩
-      · unfold NodeStore.getChild
-        rw [hc1, hs]
-        rfl
+      · exact getChildForProof_of_label_none (by rw [hc1, hs]; rfl)
       · rw [CRoot.path_cons_none c t b x hs]; rfl
       · rw [CRoot.path_cons_none c t b x hs]
     | some a =>
